@@ -538,7 +538,7 @@ def storeHuffmanTree (depths : List Nat) (num : Nat) (tree : List Node) (w : Wri
   let cl ← createHuffmanTree histo 18 5 tree (List.replicate 18 0)
   let clBits ← convertBitDepthsToSymbols cl 18 (List.replicate 18 0)
   let w ← storeHuffmanTreeOfHuffmanTreeToBitMask numCodes cl w
-  let cl ← if numCodes = 1 then setAt cl code 0 else .ok cl
+  let cl ← (if numCodes = 1 then setAt cl code 0 else Out.ok cl)
   storeHuffmanTreeToBitMask cl clBits (syms.zip extras) w
 
 /-- `StoreStaticCodeLengthCode` -/
